@@ -836,10 +836,10 @@ UNNORMALISED_FROM = {"(t+d)-t": "t+d"}
 VERDICT_QUIRK = {2: "c03_sub_drops_days", 3: "c03_add_collapses_days", 4: "c03_neg_keeps_jds", 5: "c03_seconds_inplace"}
 
 
-def correspondence(ctx, specs, shard=400):
+def correspondence(ctx, specs, shard=400, base_id=0):
     col = Collector()
     for i, spec in enumerate(specs):
-        exec_scenario(col, i, spec)
+        exec_scenario(col, base_id + i, spec)
     verdicts = {}
     for fn, cases in col.cases.items():
         vs = ctx.coq_cases(emit.shard_terms(fn, cases, shard), REQ)
@@ -875,36 +875,14 @@ def _ro(a):
     return a
 
 
-def run(ctx):
-    refused = regen(ctx)
-    ok = ctx.prove(THEOREMS)
-    if not ok:
-        core.make(["theories/Model/C03_TimeArith.vo"])
-    code = None
-    if not refused:
-        ans = ctx.coq_eval(REQ_GEN, "gen_quirks_code")
-        import re
-        m = re.search(r"=\s*\(?(-?\d+)\)?%?Z?\s*:\s*Z", ans)
-        code = int(m.group(1)) if m else None
-    ctx.log(f"regenerated methods: refused={refused!r} gen_quirks_code={code}")
-
-    from midgard.data.time import Time
-    scales = list(Time.SCALES)
-    rng = ctx.rng
-    n_scen = 260 if ctx.quick() else 4000
-    specs = [json.loads(json.dumps(c)) for c in CORPUS]
-    for _ in range(n_scen):
-        specs.append(gen_scenario(rng, scales))
-    for spec in specs:
-        ctx.count(f"shape:{spec['shape']}")
-        ctx.count(f"scale:{spec['scale']}")
-        ctx.count(f"tfmt:{spec['t']['fmt']}")
-        ctx.count(f"dfmt:{spec['d']['fmt']}")
-        for lab in spec["d"]["labels"]:
-            ctx.count(f"duration:{lab}")
-    col, verdicts = correspondence(ctx, specs)
+def decide(ctx, col, verdicts, code):
+    """Classify the verdicts of one batch of scenarios (DESIGN 2.6 / README protocol step 3)."""
 
     # ---------------------------------------------------------------- decide
+    # which quirk programs are at work: proved for the regenerated methods (gen_quirks_code), or - when that
+    # classification is unavailable - demonstrated in this run by a result that matches a quirk model
+    seen = set(verdicts["check_op"] or [])
+    bits = (code if code is not None and code > 0 else 0) | (1 if 2 in seen else 0) | (2 if 3 in seen else 0)
     op_quirk = {}          # (scenario, step) -> quirk verdict, to attribute a failing law to the step that causes it
     for fn in ("check_op", "check_neg", "check_ctor", "check_fmt", "check_intact", "check_law"):
         flat = verdicts[fn]
@@ -942,15 +920,14 @@ def run(ctx):
             if fn == "check_op" and v == 6 and meta["step"] in UNNORMALISED_FROM:
                 # faithful two-part arithmetic on an operand whose jd2 holds whole days: produced by the collapsed add
                 src = UNNORMALISED_FROM[meta["step"]]
-                if (code is not None and code >= 0 and code & 2) or op_quirk.get((meta["scenario"], src)) == 3:
+                if bits & 2 or op_quirk.get((meta["scenario"], src)) == 3:
                     q = "c03_add_collapses_days"
             if fn == "check_op" and v == 1 and isinstance(meta["result"], str) and "unhashable type" in meta["result"] \
-                    and meta["self"]["shape"] == [] and meta["other"]["shape"] != [] and meta["self"]["fmt"] == "datetime" \
-                    and code is not None and code > 0:
+                    and meta["self"]["shape"] == [] and meta["other"]["shape"] != [] and meta["self"]["fmt"] == "datetime" and bits:
                 # the quirk programs hand self.jd1 (a scalar) on unchanged next to an array jd2; TimeDateTime._from_jds cannot zip them
-                if meta["expr"].endswith("TimeDelta") and " + " in meta["expr"] and code & 2:
+                if meta["expr"].endswith("TimeDelta") and " + " in meta["expr"] and bits & 2:
                     q = "c03_add_collapses_days"
-                elif meta["expr"].endswith("TimeDelta") and " - " in meta["expr"] and code & 1:
+                elif meta["expr"].endswith("TimeDelta") and " - " in meta["expr"] and bits & 1:
                     q = "c03_sub_drops_days"
             if q:
                 ctx.count(f"quirk:{q}")
@@ -959,7 +936,42 @@ def run(ctx):
                 ctx.violation(dict(meta, verdict=v, kind=fn), what=f"midgard differs from the model ({fn}, {meta.get('step')})")
     for cls, rep in col.direct:
         ctx.violation(dict(rep, kind=cls), what=rep.get("what", cls))
-    for fmt, rep in edge_stream(ctx, col.direct):
+
+
+def run(ctx):
+    refused = regen(ctx)
+    ok = ctx.prove(THEOREMS)
+    if not ok:
+        core.make(["theories/Model/C03_TimeArith.vo"])
+    code = None
+    if not refused:
+        ans = ctx.coq_eval(REQ_GEN, "gen_quirks_code")
+        import re
+        m = re.search(r"=\s*\(?(-?\d+)\)?%?Z?\s*:\s*Z", ans)
+        code = int(m.group(1)) if m else None
+    ctx.log(f"regenerated methods: refused={refused!r} gen_quirks_code={code}")
+
+    from midgard.data.time import Time
+    scales = list(Time.SCALES)
+    rng = ctx.rng
+    n_scen = 260 if ctx.quick() else 4000
+    specs = [json.loads(json.dumps(c)) for c in CORPUS]
+    for _ in range(n_scen):
+        specs.append(gen_scenario(rng, scales))
+    for spec in specs:
+        ctx.count(f"shape:{spec['shape']}")
+        ctx.count(f"scale:{spec['scale']}")
+        ctx.count(f"tfmt:{spec['t']['fmt']}")
+        ctx.count(f"dfmt:{spec['d']['fmt']}")
+        for lab in spec["d"]["labels"]:
+            ctx.count(f"duration:{lab}")
+    chunk = 400
+    for lo in range(0, len(specs), chunk):
+        col, verdicts = correspondence(ctx, specs[lo:lo + chunk], base_id=lo)
+        decide(ctx, col, verdicts, code)
+        if len(ctx.violations) > 200:          # enough evidence; do not grind through the rest
+            break
+    for fmt, rep in edge_stream(ctx, None):
         if fmt == "seconds":
             ctx.count("quirk:c03_seconds_inplace:edge")
             ctx.finding("c03_seconds_inplace", QUIRK_WHAT["c03_seconds_inplace"], dict(rep, kind="edge"))
